@@ -87,6 +87,17 @@ Theorem C09_no_timelock : forall c s, exists ls s',
 Proof. exact CallLifeProofs.no_timelock. Qed.
 Print Assumptions C09_no_timelock.
 
+(* the effective timeout the model's calls start with is derived in the model from the three sources TarsInvoke reads *)
+Theorem C09_eff_caller_deadline_wins : forall p pc d, eff_of (mktmo p pc (Some d)) = d.
+Proof. exact CallLifeProofs.eff_caller_deadline_wins. Qed.
+Print Assumptions C09_eff_caller_deadline_wins.
+Theorem C09_eff_percall_over_proxy : forall p q, eff_of (mktmo p (Some q) None) = Z.to_N q.
+Proof. exact CallLifeProofs.eff_percall_over_proxy. Qed.
+Print Assumptions C09_eff_percall_over_proxy.
+Theorem C09_eff_nonpositive_expired : forall t, t_ctx t = None -> (configured t <= 0)%Z -> eff_of t = 0.
+Proof. exact CallLifeProofs.eff_nonpositive_expired. Qed.
+Print Assumptions C09_eff_nonpositive_expired.
+
 (* ---------- clause 2: the result is the reply, an error, or the timeout error ---------- *)
 Theorem C09_outcome : forall c s i k, reach c s -> nth_error (calls s) i = Some k -> k_pc k = Returned ->
   exists o, k_out k = Some o /\
